@@ -394,7 +394,13 @@ func runC05R3(c *eng.Ctx, r *eng.RuleCtx) {
 	if applyNode == nil {
 		r.Unknown(f.Key+"$apply reachability", apply.Lit.Pos(), "apply call not in graph")
 	} else {
-		r.Check(wg.OnlyVia(applyNode, nil, okStatus), f.Key+"$apply only for Success/Keep", apply.ArgOf.Pos(),
+		// scenario form: assume the status is neither Success nor Keep - the section is unreachable (covers a guard
+		// written as `if status != Success && status != Keep { skip }`, whose false edge carries no single fact)
+		other := func(fc eng.Fact) bool {
+			return fieldEqConst(info, status, "Success", false)(fc) || fieldEqConst(info, status, "Keep", false)(fc)
+		}
+		unreachableOtherwise := !wg.Reach(eng.Query{FromEntry: true, Assume: other, AvoidEdge: wg.Infeasible(other)})[applyNode]
+		r.Check(wg.OnlyVia(applyNode, nil, okStatus) || unreachableOtherwise, f.Key+"$apply only for Success/Keep", apply.ArgOf.Pos(),
 			"the result-application section is reachable only on Status==Success or Status==Keep", "the result-application section is reachable for a status other than Success/Keep (failed or repeated tasks must keep the queue untouched)")
 	}
 	// (b) remove: exactly one call, not in a loop, only under Status==Success, argument = current id
